@@ -139,14 +139,15 @@ let run line =
   | "DY" -> fuelled (Option.map (function None -> "NONE" | Some x -> string_of_int (int_of_n x)) (decon_sym f n (term t)))
   | "DX" -> fuelled (Option.map (function None -> "NONE" | Some (x, q) -> string_of_int (int_of_n x) ^ " " ^ show q) (decon_ex f n (term t)))
   | "DM" -> fuelled (Option.map (function None -> "NONE" | Some (x, q) -> string_of_int (int_of_n x) ^ " " ^ show q) (decon_mu f n (term t)))
-  | "MP" -> let l = term t in let r = term t in
+  | "MP" | "MPS" | "MPX" -> let l = term t in let r = term t in
             fuelled (Option.map (function None -> "RAISE" | Some p -> show p) (basic_mp f n l r))
-  | "GEN" -> let c = term t in let x = num t in
+  | "GEN" | "GENS" -> let c = term t in let x = num t in
              fuelled (Option.map (function None -> "RAISE" | Some p -> show p) (basic_gen f n c x))
-  | "BI" -> let c = term t in let d = delta t in fuelled (Option.map show (basic_inst f n c d))
+  | "BI" | "BIS" -> let c = term t in let d = delta t in fuelled (Option.map show (basic_inst f n c d))
   | "PR" -> let simp = (next t = "1") in let k = int t in
             let ids = times k (fun () -> int t) in
-            let nts = List.map (fun i -> try Hashtbl.find nots i with Not_found -> raise Bad) ids in
+            (* {n.definition: n for n in notations}: the LAST notation with a given definition wins *)
+            let nts = List.rev (List.map (fun i -> try Hashtbl.find nots i with Not_found -> raise Bad) ids) in
             let o = { o_simplify = simp; o_notations = nts; o_syms = !syms } in
             let p = term t in
             fuelled (Option.map (function None -> "RAISE"
